@@ -14,9 +14,9 @@ def run(tier, seed):
                          'TMIN occurs only at index 0 (Q7); loop variant proves termination. wave_capture_cpu/gpu return [w0 <= TMIN] and the parity, wave_assign_gpu encodes '
                          '(initial, time, final). Composition (level_eval_cpu, WaveSim.c_prop): under the memory-map hypotheses every slot that is live after op k holds, in '
                          'every simulated lane, a well-formed waveform whose initial and final values are the gate-by-gate netlist values -- invariant over the two nested loops and the '
-                         'level loop, callee by contract. Tier B (bounded): SimOps translation, s_to_c and the whole chain on real runs against the netlist oracle incl. '
+                         'level loop, callee by contract. WaveSim.s_to_c writes, for every (pseudo) primary input and lane, exactly the waveform encoding of its (initial, time, final) assignment into the first three entries of its slot and nothing else. Tier B (bounded): SimOps translation and the whole chain on real runs against the netlist oracle incl. '
                          'overflowing capacities.')
-    res.report = verify(wave_c.targets() + wave_kernels_c.targets_c13() + wave_kernels_c.targets_assign() + wave_comp_c.targets(), timeout_s=30 if tier == 'quick' else 120)
+    res.report = verify(wave_c.targets() + wave_kernels_c.targets_c13() + wave_kernels_c.targets_assign() + wave_comp_c.targets() + wave_comp_c.targets_s_to_c(), timeout_s=30 if tier == 'quick' else 120)
     res.bounded = [wave_parts.part_c03(tier, seed)]
     res.assumptions = ['A-float: time stamps are extended reals (TMIN=-inf, TMAX=+inf, TMAX_OVL a larger +inf; sentinel + delay absorbs; finite + delay exact and below TMAX; '
                        't - TMIN exceeds every delay); rounding of finite float32/float64 sums is not modelled; Q2 uses of this model only that a sentinel plus a delay stays a sentinel',
@@ -24,6 +24,6 @@ def run(tier, seed):
                        'composition over the op list and the levels (level_eval_cpu, WaveSim.c_prop): proved for the CPU path on ghost summaries (well-formed, initial, final value) of each '
                        'slot region under the memory-map hypotheses A1-A4w (A2 and region disjointness of live owner slots are proved for the allocation phase in C08; all of A2-A4w are evaluated '
                        'on real SimOps by map_drv.check_live_hypotheses); wave_eval_cpu enters by the contract of _wave_eval (Q1, Q2, Q3, Q5 proved above); the GPU path (launcher, one thread) is '
-                       'not composed', 'SimOps translation, WaveSim.s_to_c (numpy advanced indexing): bounded part only']
+                       'not composed', 'WaveSim.s_to_c is under contract with numpy gather / choose / scatter as assumed element-wise contracts (input slots pairwise at least 3 apart: memory map, C08); SimOps translation of the whole netlist: see C01 (per-node contract) and the bounded part']
     res.trusted_base = ['pyvc', 'z3 5.1.0 (+ /usr/bin/z3, cvc5 for unknowns)', 'spec.evaln / spec.gates', 'bounded/wave_parts.py']
     return res
